@@ -459,6 +459,7 @@ func (ctx Ctx) selectorMethod(f *ast.SelectorExpr, call *ast.CallExpr) coq.Expr 
 	if !ok {
 		return ctx.packageMethod(f, call)
 	}
+	ctx.checkNotVariadic(call)
 	if isLockRef(selectorType) {
 		return ctx.lockMethod(f)
 	}
@@ -540,6 +541,14 @@ func (ctx Ctx) newCoqCallWithExpr(method coq.Expr, es []ast.Expr) coq.CallExpr {
 	return ctx.newCoqCallTypeArgs(method, nil, es)
 }
 
+// checkNotVariadic rejects calls of variadic functions and methods: the
+// arguments would be passed one by one instead of as a slice
+func (ctx Ctx) checkNotVariadic(call *ast.CallExpr) {
+	if sig, ok := ctx.typeOf(call.Fun).(*types.Signature); ok && sig.Variadic() {
+		ctx.unsupported(call, "call of a variadic function")
+	}
+}
+
 func (ctx Ctx) methodExpr(call *ast.CallExpr) coq.Expr {
 	args := call.Args
 	// discovered this API via
@@ -591,6 +600,7 @@ func (ctx Ctx) methodExpr(call *ast.CallExpr) coq.Expr {
 
 	switch f := f.(type) {
 	case *ast.Ident:
+		ctx.checkNotVariadic(call)
 		typeArgs := ctx.typeList(call, ctx.info.Instances[f].TypeArgs)
 
 		// XXX: this could be a struct field of type `func()`; right now we
@@ -701,6 +711,9 @@ func (ctx Ctx) integerConversion(s ast.Node, x ast.Expr, width int) coq.Expr {
 }
 
 func (ctx Ctx) copyExpr(n ast.Node, dst ast.Expr, src ast.Expr) coq.Expr {
+	if _, ok := ctx.typeOf(src).Underlying().(*types.Slice); !ok {
+		ctx.unsupported(n, "copy from %v (only slices are supported)", ctx.typeOf(src))
+	}
 	e := sliceElem(ctx.typeOf(dst))
 	return coq.NewCallExpr(coq.GallinaIdent("SliceCopy"),
 		ctx.coqTypeOfType(n, e),
